@@ -6,7 +6,7 @@ SPEC = {
          "rule": "each evaluation = one free-running round on a fresh real FifoMapCache under the race detector (GOMAXPROCS 16): writers on disjoint keys released by a start barrier, readers (Get/Contains/Keys/Values/Len/Capacity), explicit sweepers, the cache's own ticker at 50-1000us; checked by the Go-side monitors of Props/C08.v: no panic/hang/race report, every value read was Set for that key, distinct keys within Capacity() all present with the last value, single-writer keys hold the last value or are absent, no duplicate in Keys(), quiescent views agree, ticker goroutine gone after cancel. Rounds differ by seed-derived shape (distinct by round seed); non-trivial = two writers were demonstrably active at the same time (overlapping monotonic-clock intervals)."},
         {"kind": "c08stress", "harness": "c08conc", "name": "famB", "family": "B",
          "corr": "free-running -race stress of FifoMapCache, family B (same-key writers, concurrent Clear/Resize): K1/K3 expected and classified, anything else is a violation",
-         "rule": "as family A plus hot keys written by several goroutines (B-samekey), concurrent Clear/Resize (B-clear) or both (B-all). A race report is K1 only if one of its two access stacks runs inside FifoMapCache.Clear or FifoMapCache.Resize (first FifoMapCache method on the stack; function names, never line numbers); a duplicate key is K3 only if the recorded history has two Sets of that key by different goroutines with overlapping intervals (or, with Clear/Resize around, a Set of the key overlapping a Clear/Resize call = consequence of K1); every other failure is reported."},
+         "rule": "as family A plus hot keys written by several goroutines (B-samekey), concurrent Clear/Resize (B-clear) or both (B-all). A race report is K1 only if one of its two access stacks runs inside FifoMapCache.Clear or FifoMapCache.Resize (first FifoMapCache method on the stack; function names, never line numbers); a duplicate key is K3 only if the recorded history has two Sets (or a Set and a Delete) of that key by different goroutines with overlapping intervals (or, with Clear/Resize around, a Set of the key overlapping a Clear/Resize call = consequence of K1); every other failure is reported."},
     ],
     "trusted": ["sync.Mutex/RWMutex, context cancellation, time.Ticker and the goroutine scheduler by contract",
                 "GenericStack and SafeMap methods are single atomic steps of the cache model (their own locking is C11's / C07's subject; F9 fixed)",
@@ -32,9 +32,9 @@ KNOWN = [
   "line": "known: property=C08 K1 data race between Clear/Resize and unlocked readers of f.partitions / f.valuePartitionIndex",
   "signature": "^B:(race:clear-or-resize-vs-|B-(clear|all):dup:set-overlaps-clear-or-resize$)"},
  {"property": "C08", "id": "K3", "status": "known",
-  "what": "two goroutines Set the same new key concurrently: both miss the index, both write the key into (possibly different) current partitions, so the key ends up in two partitions and Keys()/Len()/Values() count it twice. Set's index lookup, partition write and index update are three separate critical sections; making them one needs the same re-design as K1.",
+  "what": "two goroutines Set the same new key concurrently: both miss the index, both write the key into (possibly different) current partitions, so the key ends up in two partitions and Keys()/Len()/Values() count it twice (same mechanism once Delete removes the index entry, fix F1: a Set that already chose the old partition overlaps a Delete of the key, the next Set inserts it a second time). Set's index lookup, partition write and index update are three separate critical sections; making them one needs the same re-design as K1.",
   "line": "known: property=C08 K3 duplicate key after two concurrent Sets of the same new key",
-  "signature": "^B:B-(samekey|all):dup:two-concurrent-sets-of-the-key$"},
+  "signature": "^B:B-(samekey|all):dup:(two-concurrent-sets-of-the-key|set-concurrent-with-delete-of-the-key)$"},
 ]
 
 import os, json, re, glob, subprocess
